@@ -4,6 +4,7 @@ import Pyunicorn.Model.AccessMi
 import Pyunicorn.Model.WhileKernels
 import Pyunicorn.Model.LineIdx
 import Pyunicorn.Model.NsiIdx
+import Pyunicorn.Model.NsiCsr
 import Pyunicorn.Generated.StructC20Pyx
 import Pyunicorn.Generated.StructC20Py
 /-! Line-protocol driver of C20: access traces / verdicts of the raw-pointer
@@ -12,7 +13,7 @@ open Pyunicorn Pyunicorn.Proto Pyunicorn.Access
 namespace G
 export Pyunicorn.Generated.StructC20Py (pearson_pysizes pearson_pychecks tmi_pysizes tmi_pychecks
   tmi_range_min tmi_range_max tmi_scaling mi_steps normalize_steps mi_range_min mi_range_max
-  mi_scaling mi_call_args)
+  mi_scaling mi_call_args nsib_public nsib_worker nsib_outdegree nsib_nz_coords)
 end G
 
 def orat (s : String) : Option Rat := if s == "nan" then none else rat? s
@@ -213,6 +214,16 @@ def answer (toks : List String) : String :=
       (match Pyunicorn.NsiIdx.nsiBetwIdx N (nats k) (nats nbr) wlen.toNat! slen.toNat! (nats targets) with
        | none => "raise"
        | some _ => "ok")
+  | ["nsicsr", adj, tg] =>
+      -- round 5e: the arguments `Network.nsi_betweenness` builds from the adjacency, by the
+      -- construction read off the current source (generated texts); + contract and index model
+      match Pyunicorn.NsiCsr.nsiArgs ⟨G.nsib_public, G.nsib_worker, G.nsib_outdegree, G.nsib_nz_coords⟩
+          (natMat adj) (if tg == "none" then none else some (nats tg)) with
+      | none => "cannot-evaluate"
+      | some a =>
+        s!"{a.N}|{showNats a.k}|{showNats a.nbr}|{a.wlen}|{a.slen}|{showNats a.targets}" ++
+        (if Pyunicorn.NsiCsr.adjOK (natMat adj) then "|adj-ok" else "|adj-any") ++
+        (if Pyunicorn.NsiIdx.csrOK a.N a.k a.nbr a.wlen a.slen a.targets then "|valid" else "|any")
   | ["psites", key, b, kv] => predictKernel key b.toInt! (kvs kv)
   | _ => "bad-request"
 
